@@ -222,14 +222,20 @@ func (d *Decoder) unmarshal(val reflect.Value, tagType byte) error {
 		vt := val.Type()
 		if vt == reflect.TypeOf(ba) {
 			val.SetBytes(ba)
-		} else if vt.Kind() == reflect.Slice {
+		} else if k := vt.Kind(); k == reflect.Slice || k == reflect.Array {
 			switch ve := vt.Elem(); ve.Kind() {
 			case reflect.Int8, reflect.Uint8, reflect.Bool:
 				length := int(aryLen)
-				if val.Cap() < length {
-					val.Set(reflect.MakeSlice(vt, length, length))
+				if k == reflect.Array {
+					if vt.Len() != length {
+						return errors.New("cannot parse TagByteArray to " + vt.String() + ", length not match")
+					}
+				} else {
+					if val.Cap() < length {
+						val.Set(reflect.MakeSlice(vt, length, length))
+					}
+					val.SetLen(length)
 				}
-				val.SetLen(length)
 				switch ve.Kind() {
 				case reflect.Int8:
 					for i := 0; i < length; i++ {
@@ -245,7 +251,7 @@ func (d *Decoder) unmarshal(val reflect.Value, tagType byte) error {
 					}
 				}
 			default:
-				return errors.New("cannot parse TagByteArray to slice of" + ve.String())
+				return errors.New("cannot parse TagByteArray to " + vt.String())
 			}
 		} else if vt.Kind() == reflect.Interface {
 			val.Set(reflect.ValueOf(ba))
